@@ -175,6 +175,15 @@ int cmd_args(const case_t *c)
     if (cint(c, "anr", 0) && (!strcmp(rt, "gssv") || !strcmp(rt, "gssvx"))) F.A.Stype = SLU_NR;
     SuperMatrix A0 = F.A, B0 = F.B, X0 = F.X, L0 = F.L, U0 = F.U; DNformat Bs0 = *(DNformat *)F.B.Store, Xs0 = *(DNformat *)F.X.Store;
     real_t Rmid = F.R[F.n / 2], Cmid = F.C[F.n / 2];
+    /* legal=k: the illegal call additionally carries LEGAL but unusual option values (set before the violation is planted, so a
+       violation that is about the same field wins): 1 workspace query (lwork = -1), 2 transposed solve with 3 threads,
+       3 a caller-supplied workspace.  Argument tests come before any work, so the documented answer does not change. */
+    int legal = (int)cint(c, "legal", 0); void *legal_work = NULL;
+    if (!strcmp(rt, "gssvx")) {
+        if (legal == 1) F.opt.lwork = -1;
+        else if (legal == 2) { F.opt.trans = TRANS; nprocs = 3; }
+        else if (legal == 3) { F.opt.lwork = 1 << 20; legal_work = xmalloc((size_t)F.opt.lwork); F.opt.work = legal_work; }
+    } else legal = 0;
     int p1 = apply(rt, v1, &F, s1, s2, s3, &incx, &incy, &equed, &tr, &nprocs, &l1);
     int p2 = (v2 >= 0) ? apply(rt, v2, &F, s1, s2, s3, &incx, &incy, &equed, &tr, &nprocs, &l2) : 0;
     if (p1 == 0 || (v2 >= 0 && p2 == 0)) { jo_str("error", "no such violation"); jo_end(); F.A = A0; F.B = B0; F.X = X0; F.L = L0; F.U = U0; fix_free(&F); return 0; }
@@ -183,7 +192,7 @@ int cmd_args(const case_t *c)
        answer must not change (a quick return placed ahead of the tests would swallow the violation) */
     int nrhs0 = cint(c, "nrhs0", 0) && F.B.ncol > 0 && F.X.ncol > 0 && !strstr(l1, "ncol") && !strstr(l2, "ncol");   /* not for violations that are about ncol themselves */
     if (nrhs0) { F.B.ncol = 0; F.X.ncol = 0; }
-    char lab[96]; snprintf(lab, sizeof lab, "%s%s%s%s", l1, v2 >= 0 ? "+" : "", l2, nrhs0 ? "+nrhs=0" : "");
+    char lab[96]; snprintf(lab, sizeof lab, "%s%s%s%s%s", l1, v2 >= 0 ? "+" : "", l2, nrhs0 ? "+nrhs=0" : "", legal == 1 ? "+lwork=-1" : legal == 2 ? "+trans,np=3" : legal == 3 ? "+userwork" : "");
     jo_str("violation", lab); jo_int("want", -want);
 
     uint64_t h0 = fix_hash(&F);
@@ -214,7 +223,7 @@ int cmd_args(const case_t *c)
     jo_end();
     /* undo the damage */
     F.A = A0; F.B = B0; F.X = X0; F.L = L0; F.U = U0; *(DNformat *)F.B.Store = Bs0; *(DNformat *)F.X.Store = Xs0; F.R[F.n / 2] = Rmid; F.C[F.n / 2] = Cmid;
-    F.opt.fact = DOFACT; F.opt.lwork = 0;
+    F.opt.fact = DOFACT; F.opt.lwork = 0; F.opt.work = NULL; F.opt.trans = NOTRANS; free(legal_work);
     fix_free(&F);
     return 0;
 }
